@@ -145,7 +145,10 @@ pub fn project(prop: &str, lines: &[String]) -> Vec<String> {
                     })
                     .collect();
                 let s = match prop {
-                    "C01" | "C05" | "C07" => format!("line={line} in=[{}] exp=[{}]", in_vals.join(","), exp_vals.join(",")),
+                    // C01 speaks about the environment a row is evaluated in ("everything bound inside a loop disappears when the loop
+                    // ends, uncovering any outer binding it shadowed"): `vars()` is its public face
+                    "C01" => format!("line={line} in=[{}] exp=[{}] vars={vars}", in_vals.join(","), exp_vals.join(",")),
+                    "C05" | "C07" => format!("line={line} in=[{}] exp=[{}]", in_vals.join(","), exp_vals.join(",")),
                     "C04" => format!("in=[{}]", in_vals.join(",")),
                     "C02" => format!("in={} outs={}", field(&l, "in").unwrap_or(""), outs.len()),
                     "C03" | "C14" | "C08" => format!("out={}", field(&l, "out").unwrap_or("")),
